@@ -322,8 +322,12 @@ class MinGenSet():
 
         # Solve for increasing numbers of elements in the generating set
         # A generating set with len(numbers) + 1 elements always exists (the differences of the sorted numbers,
-        # plus the remainder up to total), so this is the largest size that we need to try.
-        for k in range(self.lowerbound, max(self.lowerbound+1, len(self.initial_numbers)+2)):
+        # plus the remainder up to total), so this is the largest size that we need to try. 
+        # Every partition constraint adds at most len(constraint) - 1 further breakpoints.
+        max_size = len(self.initial_numbers) + 1
+        if self.partition_constraints is not None:
+            max_size += sum(max(0, len(constraint) - 1) for constraint in self.partition_constraints)
+        for k in range(self.lowerbound, max(self.lowerbound+1, max_size+1)):
             self._create_solver(k=k)
             self.solver.optimize()
 
